@@ -116,11 +116,22 @@ PROPS = {
                  any_of(panics_in(INTERP_SRC), ens('instruction slots fetched', 'loop invariant Inv'),
                         lambda h, c, info=None: 'instruction fetch outside the program' in desc(c)),
                  'under Inv and the facts verifier::check establishes (wf_facts), no arm reaches a panic/unreachable!/overflow/bad index, fetches only slots inside the program, and re-establishes Inv'),
-            Part('verifier', lambda h: True, lambda h, c, info=None: True,
-                 'Verus: verifier::check returns Ok only for well-formed programs, and well_formed implies wf_facts at every reachable pc (bridge lemma)'),
+            Part('verifier', lambda h: True,
+                 lambda h, c, info=None: True,
+                 'Verus: verifier::check returns Ok only for well-formed programs; lemma_bridge: well_formed and pc on an instruction boundary imply the facts the step assumes (wf_facts) and that every successor pc is again a boundary inside the program'),
         ],
         level_text='Inductive invariant over the interpreter loop: each arm is panic-free and preserves Inv under the verifier\'s proved postcondition.',
         assumptions=['helpers are arbitrary total functions (a panicking helper is outside the claim)'],
+    ),
+    'C06': dict(
+        title='The default verifier accepts exactly the well-formed programs',
+        parts=[
+            Part('verifier', lambda h: h in ('check_prog_len', 'check_imm_endian', 'check_load_dw', 'check_jmp_offset', 'check_registers', 'check'),
+                 lambda h, c, info=None: True,
+                 'Verus: every function of src/verifier.rs (verbatim bodies, loop invariant on check): check(prog).is_ok() <==> well_formed(prog@); helpers Ok <==> their conjunct; no overflow / out-of-range get_insn (a refusal is an error value, never a panic)'),
+        ],
+        level_text='Unbounded deductive proof (Verus, loop invariant) of the whole of src/verifier.rs against a recursive well-formedness predicate written from the property statement: both directions, all byte strings of all lengths.',
+        assumptions=['"lands on a real instruction" is stated as "the target slot has a non-zero opcode"; lemma_walk / lemma_wf_reach (proved) show this coincides with "is an instruction boundary" for well-formed programs'],
     ),
     'C07': dict(
         title='Local calls preserve the caller frame',
